@@ -20,6 +20,8 @@ PairNums  == {"2", "0.5"}
 SimNums   == {"2", "0.5", "3", "10", "0.1", "1"}
 ArithOps  == {"+", "-", "*", "/", "**"}
 PlusOnly  == {"+"}
+PowOnly   == {"**"}
+PowNums   == {"0.5", "2", "3"}
 ShapeOps  == {"+", "-", "*", "/", "**"}
 PairCmps  == {"<", ">=", "=="}
 LtOnly    == {"<"}
